@@ -55,6 +55,8 @@ pub struct Cfg {
     pub inject_pm: u64,
     pub replay_pm: u64,
     pub net_mtu: usize,
+    /// drop server->client datagrams SMALLER than this many bytes (ACK-only packets) while faults are on
+    pub drop_small_s2c: usize,
     /// fault prefix: after this virtual time (ms) the network becomes perfect (0 = faults forever)
     pub faults_until_ms: u64,
     /// blackholes: (start_ms, end_ms, dir) dir: 0 both, 1 client->server, 2 server->client
@@ -144,6 +146,7 @@ impl Default for Cfg {
             inject_pm: 0,
             replay_pm: 0,
             net_mtu: 65535,
+            drop_small_s2c: 0,
             faults_until_ms: 0,
             blackholes: vec![],
             client: Limits::default(),
@@ -242,6 +245,7 @@ impl Cfg {
                 "inject_pm" => c.inject_pm = n()?,
                 "replay_pm" => c.replay_pm = n()?,
                 "net_mtu" => c.net_mtu = n()? as usize,
+                "drop_small_s2c" => c.drop_small_s2c = n()? as usize,
                 "faults_until_ms" => c.faults_until_ms = n()?,
                 "bh" => {
                     for part in v.split(',').filter(|p| !p.is_empty()) {
